@@ -355,6 +355,19 @@ for _g, _props in _RELT.items():
         benign_patch("%s.p%d" % (_g, _i), _props)
 
 
+# ---- Clone::clone_from overrides (round 18, own probe): the override is part of the element-wise Clone (C08.D) ----
+_CF_OLD = "        self.map(Clone::clone)\n    }\n}"
+def _cf(body):
+    return [("src/impls.rs", _CF_OLD, "        self.map(Clone::clone)\n    }\n\n    #[inline]\n    fn clone_from(&mut self, source: &Self) {\n        %s\n    }\n}" % body)]
+mutant("c08-clone-from-reversed", ["C08"], _cf("for (dst, src) in self.iter_mut().zip(source.iter()).rev() { dst.clone_from(src); }"), "C08.D")
+mutant("c08-clone-from-skips-the-first", ["C08"], _cf("for (dst, src) in self.iter_mut().zip(source.iter()).skip(1) { dst.clone_from(src); }"), "C08.D")
+mutant("c08-clone-from-index-loop-from-one", ["C08"], _cf("for i in 1..N::USIZE { self[i] = source[i].clone(); }"), "C08.D")
+benign("c08-clone-from-zip-loop", ["C08", "C03", "C04"], _cf("for (dst, src) in self.iter_mut().zip(source.iter()) { dst.clone_from(src); }"))
+benign("c08-clone-from-zip-for-each", ["C08", "C03", "C04"], _cf("self.iter_mut().zip(source).for_each(|(d, s)| d.clone_from(s));"))
+benign("c08-clone-from-assign", ["C08", "C03", "C04"], _cf("*self = source.clone();"))
+benign("c08-clone-from-index-loop", ["C08", "C03", "C04"], _cf("for i in 0..N::USIZE { self[i] = source[i].clone(); }"))
+benign("c08-clone-from-source-first-assign", ["C08", "C03", "C04"], _cf("for (src, dst) in source.iter().zip(self.iter_mut()) { *dst = src.clone(); }"))
+
 # ---- mutants of the refactored forms: the semantic rules must still refute a wrong version of each alternative formulation ----
 def mutant_on_patch(name, patch, props, edits, expect=""):
     VARIANTS.append({"name": name, "kind": "mutant", "props": props, "edits": [("patch", patch + ".patch")] + edits, "expect": expect})
